@@ -16,6 +16,7 @@ def run(ctx, focus):
     for pol in POLICIES:
         g = ctx.tlc("AsyncGen", "Gen_Async_%s_%s" % (pol, "t" if thorough else "q"), timeout=3000)
         hist += g.emitted
+        hist += ctx.tlc("AsyncGen", "Gen_Async_%s_low" % pol, timeout=3000).emitted   # occupancies 0..2
         s = ctx.tlc("AsyncGen", "Gen_Async_%s_sim" % pol, simulate="num=%d" % (1500 if thorough else 40),
                     depth=200, workers=1, timeout=1500)
         hist += s.emitted
@@ -46,7 +47,7 @@ def run(ctx, focus):
     rep.exhaustive = True
     rep.rule = ("AsyncLogger.tla model-checked for each policy (2 producers, capacity 2, safety + Stop liveness); "
                 "AsyncGen.tla behaviours - every sequence of %d operations over {event, disabled event, raw write, "
-                "release worker, Stop} from occupancies 97..99 of a 100-slot buffer, per policy, plus simulated "
+                "release worker, Stop} from occupancies 97..99 (and 0..2, 4 operations) of a 100-slot buffer, per policy, plus simulated "
                 "14-operation behaviours with 3 producers - replayed on a real AsyncLogger with a gated appender, "
                 "comparing delivery list, discard counter, parked item, returned/blocked calls at every settled "
                 "state, then conservation/FIFO/verbatim after Destroy; plus randomized 1-32 producer runs on fast, "
